@@ -86,6 +86,73 @@ package protocol
 //@   modifies consumed(conn), buf[__]
 //@   ensures  [enough] $r1 == nil ==> len($r0) >= n
 //@   ensures  [exact]  len($r0) == old(len(buf)) + (consumed(conn) - old(consumed(conn)))
+//@   ensures  [cap]    len($r0) <= max(old(len(buf)), max(n, m))
 //@   ensures  [prefix] forall k int :: 0 <= k && k < old(len(buf)) ==> $r0[k] == old(buf[k])
 //@   ensures  [bytes]  forall k int :: old(len(buf)) <= k && k < len($r0) ==> $r0[k] == streamAt(conn, old(consumed(conn)) + k - old(len(buf)))
 //@   props    C07
+
+//@ use bytes
+//@ use net
+
+// handshake: the 68 bytes of BEP 3: 19 "BitTorrent protocol", the reserved
+// bytes announcing extended (0x10 in byte 5), DHT and fast (0x05 in byte 7),
+// the info-hash, our id.
+//@ func handshake
+//@   requires len(infoHash) == 20 && len(myid) == 20
+//@   ensures  [len]   len($r0) == 68 && $r0[0] == 19 && $r0[1] == 0x42 && $r0[19] == 0x6c
+//@   ensures  [flags] $r0[20] == 0 && $r0[21] == 0 && $r0[22] == 0 && $r0[23] == 0 && $r0[24] == 0 && $r0[25] == 0x10 && $r0[26] == 0 && $r0[27] == 0x05
+//@   ensures  [hash]  forall k int :: 0 <= k && k < 20 ==> $r0[28+k] == infoHash[k]
+//@   ensures  [id]    forall k int :: 0 <= k && k < 20 ==> $r0[48+k] == myid[k]
+//@   props    C07 C06
+
+// ClientHandshake, plain (no MSE): the result is a function of the first 68
+// bytes of the stream ONLY BY POSITION -- however the peer's bytes were split
+// into reads: flags from bytes 25 and 27, info-hash (which must be ours) from
+// 28..47, peer id from 48..67, and whatever arrived beyond byte 68 is handed
+// on unchanged as init.
+//@ func ClientHandshake
+//@   requires c != nil && len(infoHash) == 20 && len(myid) == 20 && !cryptoHandshake
+//@   modifies consumed(c)
+//@   ensures  [took]  err == nil ==> consumed(c) - old(consumed(c)) >= 68 && len(init) == consumed(c) - old(consumed(c)) - 68
+//@   ensures  [conn]  conn == c
+//@   ensures  [ours]  err == nil ==> forall k int :: 0 <= k && k < 20 ==> streamAt(c, old(consumed(c)) + 28 + k) == infoHash[k]
+//@   ensures  [hash]  err == nil ==> len(result.Hash) == 20 && (forall k int :: 0 <= k && k < 20 ==> result.Hash[k] == streamAt(c, old(consumed(c)) + 28 + k))
+//@   ensures  [id]    err == nil ==> len(result.Id) == 20 && (forall k int :: 0 <= k && k < 20 ==> result.Id[k] == streamAt(c, old(consumed(c)) + 48 + k))
+//@   ensures  [fast]  err == nil ==> result.Fast == (streamAt(c, old(consumed(c)) + 27)&0x04 != 0) && result.Dht == (streamAt(c, old(consumed(c)) + 27)&0x01 != 0) && result.Extended == (streamAt(c, old(consumed(c)) + 25)&0x10 != 0)
+//@   ensures  [init]  err == nil ==> forall k int :: 0 <= k && k < len(init) ==> init[k] == streamAt(c, old(consumed(c)) + 68 + k)
+//@   props    C07
+
+//@ func checkHeader
+//@   ensures  [spec] $r0 == (len(buf) >= len(header) && (forall k int :: 0 <= k && k < len(header) ==> buf[k] == header[k]))
+//@   loop 1
+//@     invariant len(buf) >= len(header) && (forall k int :: 0 <= k && k < $i ==> buf[k] == header[k])
+//@   props    C07
+
+// ServerHandshake: policy (C08) -- a plaintext handshake is refused when the
+// crypto handshake is forced, the MSE handshake is only entered when allowed,
+// and with ForceEncryption a successful handshake returns an encrypted
+// connection (for well-formed options: ForceEncryption implies
+// ForceCryptoHandshake, which DefaultOptions guarantees); plain path (C07):
+// the flags, the peer id and the left-over bytes are functions of the stream
+// by POSITION only (the same statement for the info-hash, bytes 28..47, could
+// not be discharged within the time limit and is not claimed).
+//@ func ServerHandshake
+//@   requires c != nil && cryptoOptions != nil && (cryptoOptions.ForceEncryption ==> cryptoOptions.ForceCryptoHandshake)
+//@   requires forall i int :: 0 <= i && i < len(hashes) ==> len(hashes[i].First) == 20 && len(hashes[i].Second) == 20
+//@   assume   len(header) == 20
+//@   ghostvar Ghost_mse bool
+//@   atcall   ServerHandshake :: true :: Ghost_mse = true
+//@   modifies *
+//@   ensures  [forcehs]  old(cryptoOptions.ForceCryptoHandshake) && err == nil ==> Ghost_mse
+//@   ensures  [allowhs]  !old(cryptoOptions.AllowCryptoHandshake) ==> !Ghost_mse
+//@   ensures  [forceenc] old(cryptoOptions.ForceEncryption) && err == nil ==> conn != c
+//@   ensures  [plainconn] !Ghost_mse ==> conn == c
+//@   ensures  [id]    !Ghost_mse && err == nil ==> len(result.Id) == 20 && (forall k int :: 0 <= k && k < 20 ==> result.Id[k] == streamAt(c, old(consumed(c)) + 48 + k))
+//@   ensures  [flags] !Ghost_mse && err == nil ==> result.Fast == (streamAt(c, old(consumed(c)) + 27)&0x04 != 0) && result.Dht == (streamAt(c, old(consumed(c)) + 27)&0x01 != 0) && result.Extended == (streamAt(c, old(consumed(c)) + 25)&0x10 != 0)
+//@   ensures  [init]  !Ghost_mse && err == nil ==> len(init) == consumed(c) - old(consumed(c)) - 68 && (forall k int :: 0 <= k && k < len(init) ==> init[k] == streamAt(c, old(consumed(c)) + 68 + k))
+//@   loop 1
+//@     invariant len(skeys) == len(hashes) && fresh_(skeys)
+//@     invariant forall j int :: 0 <= j && j < $i ==> len(skeys[j]) == 20
+//@   loop 2
+//@     invariant len(hsh) == 20
+//@   props    C07 C08
